@@ -67,3 +67,20 @@ def matrix():
 
 if '--matrix' in sys.argv:
     matrix()
+
+def numbers():
+    """cases and wall seconds per check and tier, from the copies of the evidence files that
+    scratch/run_all.sh keeps after each run (scratch/evidence_<ID>_<tier>.json)"""
+    for i in range(1, 19):
+        p = 'C%02d' % i
+        row = []
+        for t in ('quick', 'thorough'):
+            f = f'{ROOT}/scratch/evidence_{p}_{t}.json'
+            if not os.path.exists(f):
+                row.append(('?', '?')); continue
+            d = json.load(open(f))
+            row.append((d['coverage'].get('cases_enumerated'), round(d.get('wall_s', 0))))
+        print(f'{p}: cases {row[0][0]:,} -> {row[1][0]:,} | wall {row[0][1]} -> {row[1][1]}'.replace(',', ' '))
+
+if '--numbers' in sys.argv:
+    numbers()
